@@ -4,7 +4,7 @@ META = {
     "title": "Incremental hashing is invariant under chunking, cloning and reset (15 hash types)",
     "design_ref": "6/C08",
     "technique": "Coq proof: characterisation of block-buffer input_block/input_lazy (emitted blocks and buffered tail are a function of buffered bytes ++ input), input_*_app, invariant over operation histories on instance tables, parametric in state / per-block closure / finalisation / block size; differential correspondence of the buffering model with the implementation on generated histories (buffer position, bytes compressed by the implementation's own counter, buffered bytes after every operation; every digest = the implementation's one-shot digest of the byte string the model predicts), plus the property evaluated directly on the implementation",
-    "level_text": "Machine-checked theorems of Props/C08.v about Model/Hasher.v + Model/BlockBuffer.v: for every hasher built like the 15 structs (state, block-buffer 0.9 buffer fed eagerly or lazily, per-block closure incl. its counter update, finalisation that ignores stale buffer bytes, reset = Default) and every history of update/clone/reset/finalize_reset/finalize on a table of instances, each returned digest is the one-shot hash of the bytes that instance absorbed since creation or last reset (C08_hasher_history_correct), any partition into update calls equals one call (C08_update_chunks, C08_chunking_invariant), clone and origin evolve independently (C08_clone_independent), a reset instance behaves like a new one (C08_reset_like_new); the four struct shapes of /repo satisfy the hypotheses for any compression function (C08_shapes_ok). The model is tied to the code by running the same histories on all 15 types (Skein with 3 output sizes each) and on the model inside coqc (vm_compute).",
+    "level_text": "Machine-checked theorems of Props/C08.v about Model/Hasher.v + Model/BlockBuffer.v: for every hasher built like the 15 structs (state, block-buffer 0.9 buffer fed eagerly or lazily, per-block closure incl. its counter update, finalisation that ignores stale buffer bytes, reset = Default) and every history of update/clone/reset/finalize_reset/finalize on a table of instances, each returned digest is the one-shot hash of the bytes that instance absorbed since creation or last reset (C08_hasher_history_correct), any partition into update calls equals one call (C08_update_chunks, C08_chunking_invariant), clone and origin evolve independently (C08_clone_independent), a reset instance behaves like a new one (C08_reset_like_new); the four struct shapes of /repo satisfy the hypotheses for any compression function (C08_shapes_ok). Props/C08_real.v composes this with conformance (C04-C07) for the REAL hashers: the records carrying the compression and finalisation functions of Model/{Groestl,Blake,JH,Skein}.v are hasher_ok and their one-shot functions are the models' digest functions (C08_real_hashers_ok, C08_real_oneshot_is_model, C08_real_groestl_lockstep), hence in every history every digest returned by any of the 15 types is the SPECIFICATION's digest of the bytes absorbed, below the family's length bound (C08_real_groestl224/256/384/512_history, C08_real_blake224/256/384/512_history, C08_real_jh_history, C08_real_skein_history for every output size and both unroll settings, and the *_history_update_bytes forms whose hypothesis is only on the bytes passed to update). The model is tied to the code by running the same histories on all 15 types (Skein with 3 output sizes each) and on the model inside coqc (vm_compute).",
     "level_note": "Trusted: Coq kernel+VM; hand-written model of block-buffer 0.9 input_block/input_lazy and of the update/reset/clone plumbing of the four lib.rs files (tied only on generated histories, through the verif_get_state hooks); that finalize_into_dirty of each crate reads only state and buffered bytes (hypothesis fin_ok; discharged per hash in C04-C07 models); aliasing inside Clone is a run-time matter the functional model cannot exhibit and is covered only by the correspondence (state of every other slot compared before/after each operation). No axioms.",
     "rule": "cases = (hash type, history of {update(slot, piece), clone(slot), reset(slot), finalize_reset(slot), finalize(slot)} on a growing table of instances); directed histories first (empty message, 20 three-piece partitions around the block boundaries incl. exactly two blocks in one piece and 3*block+7, byte-by-byte, clone-then-diverge at 8 fill levels, reset mid-buffer / after many blocks / finalize_reset-then-reuse at 8 fill levels), then random histories with piece lengths from {0,1,bs-1,bs,bs+1,2bs,3bs+7, fill the buffer exactly (= one full block pending for Skein), fill-1, fill+1, fill+bs, fill+2bs, random small, random multi-block}; distinct = distinct (type, ops); non-trivial = returns at least one digest, absorbs at least one byte, at least 3 operations; the harness checks every digest against Digest::digest of the absorbed bytes, state after reset against Default, clone state against origin, and that no operation changes another slot",
     "assumptions": ["little-endian host", "digest 0.9 Digest/FixedOutput provided methods only forward to update / finalize_into_dirty / reset"],
@@ -13,7 +13,7 @@ META = {
 
 
 def run(ctx):
-    vlib.standard_proof_stage(ctx)
+    vlib.standard_proof_stage(ctx, extra_props=("C08_real",))
     count = 80 if ctx.quick else 500
     maxops = 12 if ctx.quick else 20
     for profile in (("debug",) if ctx.quick else ("debug", "release")):
